@@ -577,7 +577,13 @@ func VerifyEvidence(doc *document.Document, evidence *document.ChipAuthEvidence)
 	// SmSsc default to 1, which is correct when SelectEF was the first SM command (SSC=2).
 	sscInit := big.NewInt(1)
 	if len(evidence.SmSsc) > 0 {
+		if len(evidence.SmSsc) != len(sm.SSC()) {
+			return nil, fmt.Errorf("[VerifyEvidence] SmSsc length (%d) does not match the SSC length of the cipher (%d)", len(evidence.SmSsc), len(sm.SSC()))
+		}
 		sscInit.Sub(new(big.Int).SetBytes(evidence.SmSsc), big.NewInt(1))
+		if sscInit.Sign() < 0 {
+			return nil, fmt.Errorf("[VerifyEvidence] SmSsc must be greater than zero")
+		}
 	}
 	ssc := make([]byte, len(sm.SSC()))
 	sscInit.FillBytes(ssc)
